@@ -35,6 +35,11 @@ pub(crate) struct Execution {
 
     /// Log execution output to STDOUT
     pub(crate) log: bool,
+
+    /// Set once a deadlock has been reported. The deadlocked thread stays
+    /// active so that the destructors running while it unwinds can still
+    /// access the execution.
+    deadlocked: bool,
 }
 
 #[derive(Debug, Eq, PartialEq, Hash, Clone, Copy)]
@@ -69,6 +74,7 @@ impl Execution {
             max_history: 7,
             location: false,
             log: false,
+            deadlocked: false,
         }
     }
 
@@ -128,12 +134,18 @@ impl Execution {
             max_history,
             location,
             log,
+            deadlocked: false,
         })
     }
 
     /// Returns `true` if a switch is required
     pub(crate) fn schedule(&mut self) -> bool {
         use crate::rt::path::Thread;
+
+        if self.deadlocked {
+            // The execution is being torn down, nothing can be scheduled.
+            return false;
+        }
 
         // Implementation of the DPOR algorithm.
 
@@ -203,13 +215,20 @@ impl Execution {
             })
         });
 
+        if next.is_none() && !self.threads.iter().all(|(_, th)| th.is_terminated()) {
+            // Report the deadlock below, but keep the current thread active.
+            self.deadlocked = true;
+        }
+
         let switched = Some(self.threads.active_id()) != next;
 
-        self.threads.set_active(next);
+        if !self.deadlocked {
+            self.threads.set_active(next);
+        }
 
         // There is no active thread. Unless all threads have terminated, the
         // test has deadlocked.
-        if !self.threads.is_active() {
+        if !self.threads.is_active() || self.deadlocked {
             let terminal = self.threads.iter().all(|(_, th)| th.is_terminated());
 
             assert!(
